@@ -5,7 +5,11 @@ A sufficient *syntactic* condition for "translation is a function of the input t
 mutable default argument, no module or class body binds a name to a mutable object (list / dict / set display, comprehension,
 or a call), no function uses `global` / `nonlocal` on module state, and no function assigns to an attribute of a module or class
 object.  Everything found is listed; entries that are immutable in effect (tuples of constants, compiled theory text, …) are
-recognised by shape, the rest is reported.
+recognised by shape, the rest is reported.  A module / class level *container of constants* (a list / set / dict display, or
+`set([...])`, a union of such, …) is immutable in effect when no code of the package mutates it: those are not listed at all unless
+a mutating method call, a subscript assignment / deletion or an augmented assignment on that name is found anywhere in the
+package (then: kind "mutation of a module/class level container").  Rewriting or reordering the contents of such a container is
+therefore not a finding.
 """
 import ast, os
 
@@ -24,8 +28,75 @@ def _const(v):
         return _const(v.left) and _const(v.right)
     return False
 
+_CTORS = {"set", "frozenset", "list", "tuple", "dict", "sorted"}
+_SETOPS = {"union", "intersection", "difference", "symmetric_difference", "copy"}
+MUTATORS = {"append", "extend", "insert", "add", "update", "pop", "popitem", "remove", "discard", "clear", "setdefault", "sort",
+            "reverse", "__setitem__", "__delitem__", "intersection_update", "difference_update", "symmetric_difference_update"}
+
+def _container(v):
+    """a container whose contents are constants (or such containers, or names of things scanned where they are defined)"""
+    ok = lambda x: _const(x) or _container(x)
+    if isinstance(v, (ast.List, ast.Set, ast.Tuple)):
+        return all(ok(x) for x in v.elts)
+    if isinstance(v, ast.Dict):
+        return all(k is not None and ok(k) for k in v.keys) and all(ok(x) for x in v.values)
+    if isinstance(v, ast.Call) and not v.keywords:
+        if isinstance(v.func, ast.Name) and v.func.id in _CTORS:
+            return all(ok(a) for a in v.args)
+        if isinstance(v.func, ast.Attribute) and v.func.attr in _SETOPS:
+            return ok(v.func.value) and all(ok(a) for a in v.args)
+    if isinstance(v, ast.BinOp) and isinstance(v.op, (ast.BitOr, ast.BitAnd, ast.Sub, ast.Add, ast.BitXor)):
+        return ok(v.left) and ok(v.right)
+    return False
+
+def _refers(node, names):
+    if isinstance(node, ast.Name):
+        return node.id if node.id in names else None
+    if isinstance(node, ast.Attribute):
+        return node.attr if node.attr in names else None
+    return None
+
+def _locals(fn):
+    out = {a.arg for a in fn.args.args + fn.args.kwonlyargs + fn.args.posonlyargs}
+    if fn.args.vararg:
+        out.add(fn.args.vararg.arg)
+    if fn.args.kwarg:
+        out.add(fn.args.kwarg.arg)
+    for n in ast.walk(fn):
+        if isinstance(n, ast.Name) and isinstance(n.ctx, ast.Store):
+            out.add(n.id)
+    return out
+
+def _mutations(tree, rel, names):
+    """mutating uses of the container names: method calls, subscript stores / deletes, augmented assignments"""
+    out = []
+    def visit(node, local):
+        if isinstance(node, (ast.FunctionDef, ast.AsyncFunctionDef, ast.Lambda)):
+            local = local | (_locals(node) if not isinstance(node, ast.Lambda) else {a.arg for a in node.args.args})
+        hit = None
+        if isinstance(node, ast.Call) and isinstance(node.func, ast.Attribute) and node.func.attr in MUTATORS:
+            hit = node.func.value
+        elif isinstance(node, (ast.Assign, ast.Delete, ast.AugAssign)):
+            tg = node.targets if not isinstance(node, ast.AugAssign) else [node.target]
+            for t in tg:
+                if isinstance(t, ast.Subscript):
+                    hit = t.value
+                elif isinstance(node, ast.AugAssign) and local:      # `name |= ...` inside a function
+                    hit = t
+        if hit is not None:
+            nm = _refers(hit, names)
+            if nm is not None and not (isinstance(hit, ast.Name) and hit.id in local):
+                out.append({"file": rel, "line": node.lineno, "kind": "mutation of a module/class level container",
+                            "where": nm, "code": ast.unparse(node)[:120]})
+        for ch in ast.iter_child_nodes(node):
+            visit(ch, local)
+    visit(tree, frozenset())
+    return out
+
 def scan(repo):
     out = []
+    containers = set()
+    trees = []
     root = os.path.join(repo, "telingo")
     for dp, _, fs in os.walk(root):
         for f in sorted(fs):
@@ -34,6 +105,7 @@ def scan(repo):
             path = os.path.join(dp, f)
             rel = os.path.relpath(path, repo)
             tree = ast.parse(open(path).read())
+            trees.append((tree, rel))
             classes = {n.name for n in ast.walk(tree) if isinstance(n, ast.ClassDef)}
             for node in ast.walk(tree):
                 if isinstance(node, (ast.FunctionDef, ast.AsyncFunctionDef, ast.Lambda)):
@@ -56,12 +128,16 @@ def scan(repo):
             def body_scan(body, where):
                 for st in body:
                     if isinstance(st, ast.Assign):
-                        if not _const(st.value):
+                        if not _const(st.value) and _container(st.value) and all(isinstance(t, ast.Name) for t in st.targets):
+                            containers.update(t.id for t in st.targets)
+                        elif not _const(st.value):
                             out.append({"file": rel, "line": st.lineno, "kind": "module/class level binding to a non-constant object",
                                         "where": where, "code": ast.unparse(st)[:120]})
                     elif isinstance(st, ast.ClassDef):
                         body_scan(st.body, where + st.name + ".")
             body_scan(tree.body, "")
+    for tree, rel in trees:
+        out += _mutations(tree, rel, containers)
     return out
 
 if __name__ == "__main__":
